@@ -79,6 +79,11 @@ func (sp *SAMLServiceProvider) buildAuthnRequest(includeSig bool) (*etree.Docume
 	}
 
 	doc := etree.NewDocument()
+	// Write CR (and TAB / LF in attribute values) as character references: a
+	// literal one is normalized away by the recipient's XML parser, which alters
+	// the value and invalidates the enveloped signature.
+	doc.WriteSettings.CanonicalText = true
+	doc.WriteSettings.CanonicalAttrVal = true
 
 	// Only POST binding includes <Signature> in <AuthnRequest> (includeSig)
 	if sp.SignAuthnRequests && includeSig {
@@ -340,6 +345,11 @@ func (sp *SAMLServiceProvider) buildLogoutRequest(includeSig bool, nameID string
 	nameId.SetText(sessionIndex)
 
 	doc := etree.NewDocument()
+	// Write CR (and TAB / LF in attribute values) as character references: a
+	// literal one is normalized away by the recipient's XML parser, which alters
+	// the value and invalidates the enveloped signature.
+	doc.WriteSettings.CanonicalText = true
+	doc.WriteSettings.CanonicalAttrVal = true
 
 	if includeSig {
 		signed, err := sp.SignLogoutRequest(logoutRequest)
